@@ -152,6 +152,9 @@ class JsonDocument(HierDictDocument):
     def validate(self, key, cls, val):
         super(JsonDocument, self).validate(key, cls, val)
 
+        if val is None and self.get_cls_attrs(cls).nullable:
+            return
+
         if issubclass(cls, (DateTime, Date, Time)) and not (
                                     isinstance(val, six.string_types) and
                                                  cls.validate_string(cls, val)):
